@@ -19,6 +19,7 @@
 #include "model.h"
 #include "vh.h"
 #include "layoutmon.h"
+#include "refcodec.h"
 
 enum { F_C01, F_C06, F_C07, F_C13, F_C14 };
 
@@ -74,6 +75,8 @@ typedef struct hist_s {
   uint64_t *listed_clk;    /* table number -> clock of its first appearance in leveldb.sstables */
   size_t listed_cap;
   uint64_t unlinks_seen, unlinks_vs_iters;
+  int man_obj, man_name;   /* MANIFEST object written most recently (trace order) and its name id */
+  uint64_t man_len;        /* bytes of it written so far (trace order) */
   /* key locality: writes concentrate in a sliding window of the universe (narrow files, chained overlaps) */
   int loc_width, loc_center, loc_until;
   vrng_t spell_rng;
@@ -448,6 +451,51 @@ static void c13_scan(hist_t *H) {
           vh_count("c13_orphan_overwrites", 1);
       }
       vh_count("c13_creates", 1);
+    } else if (e->op == IOP_WRITE && e->res > 0 && e->pc == PC_MANIFEST) {
+      if (e->obj != H->man_obj) { H->man_obj = e->obj; H->man_name = e->name; H->man_len = 0; }
+      if (e->off + (uint64_t)e->res > H->man_len) H->man_len = e->off + (uint64_t)e->res;
+    } else if (e->op == IOP_UNLINK && e->res == 0 && e->pc == PC_LOG && e->num > 0) {
+      /* a write-ahead log may go only once the MANIFEST records a log number above it (its contents are in
+         tables then).  The MANIFEST is append-only: the bytes written to it before this unlink (trace order)
+         are a prefix of the file on disk now; replay that prefix with the independent decoder. */
+      char path[800];
+      uint8_t *buf = NULL;
+      size_t got = 0;
+      int fd = -1;
+      vh_count("c13_log_unlinks", 1);
+      if (H->man_obj >= 0 && H->man_len > 0 && H->man_name >= 0) {
+        snprintf(path, sizeof(path), "%s/%s", H->h.dir, iom_name(H->man_name));
+        iom_pause(1);
+        fd = open(path, O_RDONLY);
+        if (fd >= 0) {
+          buf = malloc((size_t)H->man_len + 1);
+          while (got < H->man_len) {
+            ssize_t r = read(fd, buf + got, (size_t)H->man_len - got);
+            if (r <= 0) break;
+            got += (size_t)r;
+          }
+          close(fd);
+        }
+        iom_pause(-1);
+      }
+      if (buf != NULL && got == H->man_len) {
+        rc_manifest_t m;
+        if (rc_manifest_replay(buf, got, &m) == 0 && m.has_log_number) {
+          vh_count("c13_log_unlinks_checked_against_manifest", 1);
+          if (e->num >= m.log_number || e->num == m.prev_log_number)
+            viol(H, "C13", "log-unlinked-before-superseded",
+                 "log #%llu unlinked while the MANIFEST (%s, first %llu bytes = everything written before the unlink) still "
+                 "records log number %llu (prev %llu): the data of that log is not in any table yet",
+                 (unsigned long long)e->num, iom_name(H->man_name), (unsigned long long)H->man_len,
+                 (unsigned long long)m.log_number, (unsigned long long)m.prev_log_number);
+        } else {
+          vh_count("c13_log_unlinks_manifest_prefix_undecodable", 1);
+        }
+        rc_manifest_free(&m);
+      } else {
+        vh_count("c13_log_unlinks_unchecked", 1);
+      }
+      free(buf);
     } else if (e->op == IOP_UNLINK && e->res == 0 && e->pc == PC_TABLE) {
       H->unlinks_seen++;
       vh_count("c13_table_unlinks", 1);
@@ -1126,6 +1174,7 @@ typedef struct weights_s {
 
 static void run_case(uint64_t seed, int caseidx, int focus, const char *base, int steps_max) {
   hist_t *H = calloc(1, sizeof(hist_t));
+  H->man_obj = -1; H->man_name = -1;
   cfg_t cfg;
   char dir[600];
   int nkeys, total, rc;
